@@ -29,7 +29,7 @@ def post_stage(stage, res, verdict):
 RULE = ("case = random configuration from the stated set: 3 geometries x {CartesianR2, CartesianR6, PolarR6, Refined} x 7 profiles, R0 in "
         "{1e-8,1e-5,1e-3,0.1}, DirBC, take / give x 4 cache modes, extrapolation {0,1,3,(2)}, V/W/F, FMG off/on x cycle x 0..3 "
         "iterations, pre/post in 1..3, maxLevels {-1,2,3}, 3 norms, tolerances {both, rel only, abs only, 1e-10}, 17x32..65x128 (129x256 "
-        "thorough), anisotropic 0/2/3 with the documented jump radius, 1 or 4 threads, CLI route or pointer route; 15% smaller grids and "
+        "thorough), anisotropic 0/2/3 with the documented jump radius, 1 or 4 threads, CLI route or pointer route (20% of the pointer-route cases judge the second solve() on the object, after a first one with other solve-time options); one fixed witness case of F16; 15% smaller grids and "
         "extrapolation 2 are judged on 'a reported stop is true' only; signature = (geometry, problem, profile, DirBC, strategy+cache, "
         "extrapolation, cycle, FMG cfg, levels, norm); non-trivial = >= 2 iterations and non-zero initial residual")
 ASSUMPTIONS = ["independent stop quantity: reference stencil + own discretised rhs + own every-second-node coarse grid",
